@@ -165,7 +165,8 @@ impl<'g> FnCx<'g> {
             }
             syn::Expr::If(_) | syn::Expr::Match(_) | syn::Expr::Block(_) => {
                 // a control-flow construct used as a value: compile its branches to values and join
-                if has_escape(e) || self.mutates_state(e) {
+                let ret_is_res = matches!(self.u.resolve(&self.ret.clone()), Ty::Res(_)) && !self.in_loop_fn;
+                if has_escape_opt(e, ret_is_res) || self.mutates_state(e) {
                     return unsupported("control flow or mutation inside a construct used as a value", e.span());
                 }
                 self.value_join(e, expect)
@@ -876,7 +877,13 @@ impl<'g> FnCx<'g> {
                     steps.extend(v.steps);
                     atoms.push(paren_atom(&v.atom));
                 }
-                return Ok(self.extern_result(steps, format!("({} {})", lean, atoms.join(" ")), *rty));
+                // a path extern declared with a `Result` type is a Rust function that returns `Result` (the caller
+                // applies `?` or hands it on): run now, value typed `Res` like a translated callee's
+                let v = self.extern_result(steps, format!("({} {})", lean, atoms.join(" ")), (*rty).clone());
+                return Ok(match *rty {
+                    Ty::Res(inner) => Val { steps: v.steps, atom: format!("(Except.ok {})", v.atom), prop: None, ty: Ty::Res(inner) },
+                    _ => v,
+                });
             }
         }
         // associated functions of translated types: `Type::f(..)`, `Self::f(..)`
